@@ -85,6 +85,18 @@ static void live_exec(int proto) { memset(LO, 0, sizeof *LO); LFAIL[0] = 0; fflu
 		static lep_t c, s; memset(&c, 0, sizeof c); memset(&s, 0, sizeof s); c.e.proto = s.e.proto = proto; c.e.is_client = 1; c.e.own = &LCLI[proto]; s.e.own = &LSRV[proto]; c.e.trust = &LSRV[proto]; c.e.entropy_key = 0xC11E17; s.e.entropy_key = 0x5E12BE12; c.e.entropy_fail_at = s.e.entropy_fail_at = -1; vn_adv = ladv; vn_adv_after = ladv_after; int cr, sr; LO->status = vnet_run2(lep_task, &c, lep_task, &s, &cr, &sr);
 		LO->c_done = c.done; LO->s_done = s.done; LO->c_bad = c.bad; LO->s_bad = s.bad; LO->c_after = c.after_reject_data; LO->s_after = s.after_reject_data; LO->c_got = c.got; LO->s_got = s.got; int cnt[2] = { 0, 0 }; for (int i = 0; i < vn_nlog; i++) cnt[vn_log[i].dir]++; LO->hs[0] = cnt[0] - 3; LO->hs[1] = cnt[1] - 3; _exit(0); }
 	int st; while (waitpid(pid, &st, 0) < 0 && errno == EINTR) {} if (!WIFEXITED(st) || WEXITSTATUS(st)) snprintf(LFAIL, sizeof LFAIL, "%s", WIFSIGNALED(st) && WTERMSIG(st) == SIGALRM ? "hang" : "crash"); }
+/* piecewise delivery: the receiver takes a record in pieces (read buffer smaller than the record) and WRITES in between; what it goes on to read must
+   still be the sender's bytes (the record buffer must not be reused for the outgoing record while unread plaintext sits in it) */
+typedef struct { int status, c_hs, s_hs, c_ok, s_ok, c_err, s_err; size_t s_got; } pw_t; static pw_t *PW;
+static void blk_piecewise(void) { if (!PW) PW = (pw_t *)mmap(NULL, sizeof *PW, PROT_READ | PROT_WRITE, MAP_SHARED | MAP_ANONYMOUS, -1, 0);
+	for (int p = 0; p < 3; p++) { char bn[40]; snprintf(bn, sizeof bn, "piecewise-%s", PNAME[p]); if (!vh_block_begin(bn)) continue; static const size_t IW[] = { 17, 1000, 16384 }, IR[] = { 1, 7, 100, 999 }, IX[] = { 1, 23, 500 };
+		for (int wi = 0; wi < 3; wi++) for (int ri = 0; ri < 4; ri++) for (int xi = 0; xi < 3; xi++) { if (IR[ri] >= IW[wi]) continue; if (!vh_next()) continue; memset(PW, 0, sizeof *PW); fflush(stdout); pid_t pid = fork();
+			if (pid == 0) { if (!freopen("/dev/null", "w", stderr) || !freopen("/dev/null", "w", stdout)) {} alarm(60); static side_creds srv, cli; static ep_t c, s; build_side(&srv, p, 0, 1, NULL); build_side(&cli, p, 1, 1, NULL); memset(&c, 0, sizeof c); memset(&s, 0, sizeof s); c.proto = s.proto = p; c.is_client = 1; c.own = &cli; s.own = &srv; c.trust = &srv; c.entropy_key = 0xC11E17; s.entropy_key = 0x5E12BE12; c.entropy_fail_at = s.entropy_fail_at = -1;
+				c.do_app = s.do_app = 1; c.out = (app_dir){ { IW[wi] }, 1, IR[ri] }; s.in = c.out; s.out = (app_dir){ { IX[xi] }, 1, 4096 }; c.in = s.out; s.interleave = 1; int cr, sr; PW->status = vnet_run2(ep_task, &c, ep_task, &s, &cr, &sr); PW->c_hs = c.hs_ret; PW->s_hs = s.hs_ret; PW->c_ok = c.app_ok; PW->s_ok = s.app_ok; PW->c_err = c.app_err; PW->s_err = s.app_err; PW->s_got = s.app_got; _exit(0); }
+			int st; while (waitpid(pid, &st, 0) < 0 && errno == EINTR) {} size_t kk[4] = { (size_t)p, IW[wi], IR[ri], IX[xi] }; vh_eval(vh_hash(kk, sizeof kk, 71)); char key[160];
+			if (!WIFEXITED(st) || WEXITSTATUS(st)) { snprintf(key, sizeof key, "C11:piecewise:%s:crash-or-hang", PNAME[p]); vh_viol(key, "\"write\":%zu,\"readbuf\":%zu,\"reply\":%zu", IW[wi], IR[ri], IX[xi]); continue; }
+			if (PW->c_hs != 1 || PW->s_hs != 1) { snprintf(key, sizeof key, "C11:piecewise:%s:handshake-failed", PNAME[p]); vh_viol(key, "\"c\":%d,\"s\":%d", PW->c_hs, PW->s_hs); continue; }
+			if (!PW->s_ok || !PW->c_ok) { snprintf(key, sizeof key, "C11:piecewise:%s:delivered-bytes-differ-from-the-sent-ones", PNAME[p]); vh_viol(key, "\"write\":%zu,\"readbuf\":%zu,\"reply\":%zu,\"server_err\":%d,\"client_err\":%d,\"server_got\":%zu", IW[wi], IR[ri], IX[xi], PW->s_err, PW->c_err, PW->s_got); } } } }
 static void blk_live(void) {
 	for (int p = 0; p < 3; p++) { char bn[32]; snprintf(bn, sizeof bn, "live-%s", PNAME[p]); if (!vh_block_begin(bn)) continue; LK = L_NONE; LIDX = -1; LDIR = 0; HSREC[0] = HSREC[1] = 1000; live_exec(p); if (LFAIL[0] || !LO->c_done || !LO->s_done || LO->c_got != 62 || LO->s_got != 62) { if (vh_next()) vh_viol("C11:live:baseline-stream-not-delivered", "\"proto\":\"%s\",\"c_got\":%zu,\"s_got\":%zu,\"fail\":\"%s\"", PNAME[p], LO->c_got, LO->s_got, LFAIL); continue; }
 		int hs0 = LO->hs[0], hs1 = LO->hs[1];
@@ -98,4 +110,4 @@ static void blk_live(void) {
 			vh_sample("{\"block\":\"%s\",\"fault\":\"%s\",\"dir\":\"%s\",\"record\":%d,\"delivered\":%zu}", bn, LN[k], dir ? "c2s" : "s2c", idx, got); } }
 }
 int main(int argc, char **argv) { vh_init(argc, argv); app_fill(); setup(); LO = mmap(NULL, sizeof *LO, PROT_READ | PROT_WRITE, MAP_SHARED | MAP_ANONYMOUS, -1, 0); for (int p = 0; p < 3; p++) if (build_side(&LSRV[p], p, 0, 1, NULL) != 1 || build_side(&LCLI[p], p, 1, 1, NULL) != 1) vh_harness_error("creds");
-	if (!freopen("/dev/null", "w", stderr)) {} blk_live(); vh_guarded("C11", blk_cbc, 60); vh_guarded("C11", blk_gcm, 60); return vh_finish(); }
+	if (!freopen("/dev/null", "w", stderr)) {} blk_live(); blk_piecewise(); vh_guarded("C11", blk_cbc, 60); vh_guarded("C11", blk_gcm, 60); return vh_finish(); }
